@@ -659,6 +659,11 @@ class Engine:
             if kind == "adt":
                 vals = [self.eval_operand(st, frame, o) for o in ops]
                 ty, var, e = self.enum_variant_value(name)
+                if e is None and dest_ty:
+                    e2 = self.reg.lookup(dest_ty)
+                    lastn = strip_generics(name).split("::")[-1]
+                    if e2 and lastn in e2["by_name"]:
+                        ty, var, e = dest_ty, lastn, e2
                 if e and e["clike"]:
                     return z3.BitVecVal(e["by_name"][var], e["width"])
                 if var is None and not vals and dest_ty and self.reg.lookup(dest_ty) is None and "::" in name \
@@ -1246,7 +1251,20 @@ def m_panic(engine, st, fr, callee, args, ops):
     return Panic((callee.split("(")[0], fr.fn.name, fr.bb))
 
 
+def m_partial_eq(engine, st, fr, callee, args, ops):
+    """derive(PartialEq) on a field-less enum / primitive: equality of the (discriminant) values."""
+    a = _deref_arg(engine, st, args[0])
+    b = _deref_arg(engine, st, args[1])
+    if isinstance(a, Ref) or isinstance(b, Ref):
+        a, b = _deref_arg(engine, st, a), _deref_arg(engine, st, b)
+    if (z3.is_bv(a) and z3.is_bv(b)) or (z3.is_bool(a) and z3.is_bool(b)):
+        r = a == b
+        return z3.simplify(z3.Not(r) if callee.endswith("::ne") else r)
+    raise Unsupported("PartialEq on %r / %r" % (a, b))
+
+
 BUILTIN_MODELS = [
+    (r"^<.* as PartialEq(<.*>)?>::(eq|ne)$", m_partial_eq),
     (r"^Option::<.*>::is_some$", m_option_is(True)),
     (r"^Option::<.*>::is_none$", m_option_is(False)),
     (r"^Option::<.*>::(unwrap|expect)$", m_option_unwrap),
